@@ -79,7 +79,7 @@ def scenario_plan(ctx):
     if ctx.thorough:
         plan = base + extra
     else:
-        plan = base[:3] + [r.choice(base[3:] + extra)]
+        plan = [base[0], base[1], base[4], r.choice([base[2], base[3]] + extra)]
     return plan
 
 
@@ -313,6 +313,34 @@ def holds(lhs, rhs, scale):
     return abs(lhs - rhs) <= TOL['identity'] * scale + TOL['abs_floor']
 
 
+def common_discrepancy(res, nchems, bad_i, mi, mo):
+    """is the model/code discrepancy of this state pair one and the same amount in the inner copy (un-negated yp)
+    and in the outer copy of an exchange slot, with the particle block untouched?  (hypotheses of
+    Props.C06.common_shift_slot / _compound / _heat; the momentum slot is compared weighted by gamma_i, gamma_o)"""
+    if mi is None or mo is None or len(mi) != len(res['ri']) or len(mo) != len(res['ro']) or 'ids' not in res:
+        return False
+    if not all(holds(l, rr, s) for _n, l, rr, s in res['ids']):
+        return False
+    npart = len(res['ri']) - 4 - nchems
+    if [s for s in (bad_i if isinstance(bad_i, list) else []) if 4 <= s < 4 + npart]:
+        return False
+    gi, go = res['pv'][3], res['pv'][4]
+    for s in range(4 + nchems):
+        s_in = s if s < 4 else 4 + npart + (s - 4)
+        d_i = -(float(res['ri'][s_in]) - mi[s_in])
+        d_o = float(res['ro'][s]) - mo[s]
+        if s == 1:
+            d_i, d_o = gi * d_i, go * d_o
+        scale = abs(res['ri'][s_in]) + abs(res['ro'][s]) + abs(mi[s_in]) + abs(mo[s])
+        if s < 4 and s != 1:
+            scale = max(scale, res['ids'][{0: 0, 2: 1, 3: 2}[s]][3])
+        elif s >= 4:
+            scale = max(scale, res['ids'][3 + s - 4][3])
+        if not abs(d_i - d_o) <= TOL['identity'] * scale + TOL['abs_floor']:
+            return False
+    return True
+
+
 def case_dump(sc, case, res, extra=None):
     d = {'scenario_spec': sc.spec, 'kind': case['kind'], 'z': float(case['z']), 'p_changes': case['p'],
          'inner_state_y': vec(res['y_i']), 'outer_state_y': vec(res['y_o']),
@@ -321,7 +349,9 @@ def case_dump(sc, case, res, extra=None):
          'yo_attributes[b,u,s,T,rho,rho_a,Sa,Ta]': res['recB']['outer'], 'yo.c': res['recB']['outer_c'],
          'yo.ca': res['recB']['outer_ca'],
          'params[c1,alpha_2,alpha_3,gamma_i,gamma_o,lambda_2,g,rho_r,Ru,cp]': res['pv'],
-         'how_to_replay': 'harness/scen_spm.build(scenario_spec); c06.run_real(sc, scen_spm.plume_objects(...), case)'}
+         'how_to_replay': 'cd /verif && ./check C06 --replay <this file>  (rebuilds the scenario from scenario_spec with '
+                          'harness/scen_spm.build, calls the real smp.derivs_inner / smp.derivs_outer on the two states at depth z '
+                          'and prints every identity with its residual)'}
     if extra:
         d.update(extra)
     return d
@@ -371,6 +401,17 @@ def run(ctx, lean_ok):
             ctx.evaluations += 1
             ctx.count('kind ' + case['kind'])
             ctx.count('c1!=0' if res['pv'][0] != 0 else 'c1==0')
+            rb = res['recB']
+            ctx.count('outer present (Q_o<0)' if res['y_o'][0] < 0 else 'outer absent (Q_o>=0)')
+            ctx.count('peeling Ep!=0' if rb['inner'][7] != 0 else 'peeling Ep==0')
+            if any(q['scal'][0] > 0.5 and q['scal'][1] > 0 and any(b > 0 for b in q['beta']) for q in rb['particles']):
+                ctx.count('dissolution active')
+            if any(q['scal'][6] != 0 for q in rb['particles']):
+                ctx.count('particle heat transfer active')
+            if any(c != 0 for c in rb['outer_ca']):
+                ctx.count('ambient background concentration non-zero')
+            if any(c != 0 for c in rb['outer_c']) and res['y_o'][0] < 0:
+                ctx.count('outer plume carries dissolved compounds')
             finite = bool(np.all(np.isfinite(res['ri'])) and np.all(np.isfinite(res['ro'])))
             ctx.count('finite' if finite else 'non-finite vector (out of domain)')
             key = (si, round(float(case['z']), 6)) + tuple(float('%.10g' % v) for v in
@@ -442,7 +483,7 @@ def run(ctx, lean_ok):
     if out is None:
         return
     nbad = {'inner': 0, 'outer': 0, 'update': 0, 'layout': 0}
-    ncommon = 0
+    mism = []             # (case, res, bad_i, bad_o, mi, mo, common)
     stale_slots = set()
     ncmp = 0
     nrec_differ = 0
@@ -459,48 +500,7 @@ def run(ctx, lean_ok):
         bad_i = mi is None or len(mi) != len(res['ri']) or [s for s in range(len(mi)) if not close(mi[s], float(res['ri'][s]), TOL['gen_vs_source'])]
         bad_o = mo is None or len(mo) != len(res['ro']) or [s for s in range(len(mo)) if not close(mo[s], float(res['ro'][s]), TOL['gen_vs_source'])]
         if bad_i or bad_o:
-            # is the discrepancy one and the same exchange term in both copies?  (inner returns -yp)
-            common = False
-            if mi is not None and mo is not None and len(mi) == len(res['ri']) and len(mo) == len(res['ro']) and 'ids' in res:
-                common = all(holds(l, rr, s) for _n, l, rr, s in res['ids'])
-                npart = len(res['ri']) - 4 - nchems
-                # particle slots must agree exactly: a common exchange term cannot live there
-                common = common and not [s for s in (bad_i if isinstance(bad_i, list) else []) if 4 <= s < 4 + npart]
-                gi, go = res['pv'][3], res['pv'][4]
-                for s in range(4 + nchems):
-                    s_in = s if s < 4 else 4 + npart + (s - 4)
-                    d_i = -(float(res['ri'][s_in]) - mi[s_in])
-                    d_o = float(res['ro'][s]) - mo[s]
-                    if s == 1:
-                        d_i, d_o = gi * d_i, go * d_o
-                    scale = abs(res['ri'][s_in]) + abs(res['ro'][s]) + abs(mi[s_in]) + abs(mo[s])
-                    if s < 4 and s != 1:
-                        scale = max(scale, res['ids'][{0: 0, 2: 1, 3: 2}[s]][3])
-                    elif s >= 4:
-                        scale = max(scale, res['ids'][3 + s - 4][3])
-                    if not abs(d_i - d_o) <= TOL['identity'] * scale + TOL['abs_floor']:
-                        common = False
-            if common:
-                ncommon += 1
-                for s in (bad_o if isinstance(bad_o, list) else []):
-                    stale_slots.add('outer[%d]' % s)
-                for s in (bad_i if isinstance(bad_i, list) else []):
-                    stale_slots.add('inner[%d]' % s)
-            else:
-                if bad_i:
-                    nbad['inner'] += 1
-                    if nbad['inner'] <= 3:
-                        s = bad_i[0] if isinstance(bad_i, list) else -1
-                        ctx.broken.append(('correspondence', 'Model.Smp.derivsInner vs smp.derivs_inner',
-                                           'slot %s: model=%r code=%r kind=%s z=%r' % (s, mi[s] if mi and s >= 0 else mi,
-                                                                                        float(res['ri'][s]) if s >= 0 else None, case['kind'], case['z'])))
-                if bad_o:
-                    nbad['outer'] += 1
-                    if nbad['outer'] <= 3:
-                        s = bad_o[0] if isinstance(bad_o, list) else -1
-                        ctx.broken.append(('correspondence', 'Model.Smp.derivsOuter vs smp.derivs_outer',
-                                           'slot %s: model=%r code=%r kind=%s z=%r' % (s, mo[s] if mo and s >= 0 else mo,
-                                                                                        float(res['ro'][s]) if s >= 0 else None, case['kind'], case['z'])))
+            mism.append((case, res, bad_i, bad_o, mi, mo, common_discrepancy(res, nchems, bad_i, mi, mo)))
         # the Lean readers (index layout of the theorems) against the Python predicate
         if isinstance(oid, list) and 'ids' in res:
             lv = oid[0]
@@ -529,6 +529,29 @@ def run(ctx, lean_ok):
             if nbad['update'] <= 3:
                 ctx.broken.append(('correspondence', 'Model.Smp.outerUpdate vs OuterPlume.update',
                                    'y=%r model=%r code=%r' % (vec(res['y_o']), ou, (B['outer'], B['outer_c'], B['outer_ca']))))
+    all_common = bool(mism) and nviol == 0 and all(m[6] for m in mism)
+    ncommon = len(mism) if all_common else 0
+    for case, res, bad_i, bad_o, mi, mo, _c in mism:
+        if all_common:
+            for s in (bad_o if isinstance(bad_o, list) else []):
+                stale_slots.add('outer[%d]' % s)
+            for s in (bad_i if isinstance(bad_i, list) else []):
+                stale_slots.add('inner[%d]' % s)
+            continue
+        if bad_i:
+            nbad['inner'] += 1
+            if nbad['inner'] <= 3:
+                s = bad_i[0] if isinstance(bad_i, list) else -1
+                ctx.broken.append(('correspondence', 'Model.Smp.derivsInner vs smp.derivs_inner',
+                                   'slot %s: model=%r code=%r kind=%s z=%r' % (s, mi[s] if mi and s >= 0 else mi,
+                                                                                float(res['ri'][s]) if s >= 0 else None, case['kind'], case['z'])))
+        if bad_o:
+            nbad['outer'] += 1
+            if nbad['outer'] <= 3:
+                s = bad_o[0] if isinstance(bad_o, list) else -1
+                ctx.broken.append(('correspondence', 'Model.Smp.derivsOuter vs smp.derivs_outer',
+                                   'slot %s: model=%r code=%r kind=%s z=%r' % (s, mo[s] if mo and s >= 0 else mo,
+                                                                                float(res['ro'][s]) if s >= 0 else None, case['kind'], case['z'])))
     ctx.oblige('correspondence Model.Smp.derivsInner == smp.derivs_inner, every slot, %d state pairs (rel %g)' % (ncmp, TOL['gen_vs_source']),
                nbad['inner'] == 0, '%d state pairs disagree' % nbad['inner'])
     ctx.oblige('correspondence Model.Smp.derivsOuter == smp.derivs_outer, every slot, %d state pairs (rel %g)' % (ncmp, TOL['gen_vs_source']),
@@ -544,3 +567,38 @@ def run(ctx, lean_ok):
         ctx.obligations.append(('slot-exact transcription is current (stale in terms common to both copies)', False))
     if nrec_differ:
         ctx.notes.append('%d cases where the derived attributes after derivs_inner and after derivs_outer differ (each model call uses its own snapshot)' % nrec_differ)
+
+
+# ---------------------------------------------------------------------------
+# replay of a recorded state pair on the real code
+# ---------------------------------------------------------------------------
+
+def replay(ctx, path):
+    import json
+    d = json.load(open(path))
+    c = d.get('case')
+    if not c:
+        print('replay file names a broken obligation, no state pair: %r' % d.get('broken_obligations'))
+        return 2
+    sc = S.build(c['scenario_spec'])
+    yo = np.array(c['outer_state_y'], dtype=float)
+    kind = c['kind']
+    if kind == 'simulated-pair':
+        kind = 'outer-arbitrary'          # the recorded states are replayed through constant neighbours
+    case = {'kind': kind, 'z': float(c['z']), 'p': c['p_changes'], 'yi': np.array(c['inner_state_y'], dtype=float), 'yo': yo}
+    objs = S.plume_objects(sc, case['z'], case['yi'])
+    res = run_real(sc, objs, case)
+    nchems = len(sc.chem_names)
+    ids, idiss = identities(res['pv'], nchems, res['recB'], res['ri'], res['ro'])
+    preds = list(ids)
+    if res['y_o'][0] >= 0 or kind == 'outer-absent-above':
+        preds += absent_predicates(res['pv'], nchems, res['recA'], res['ri'], idiss)
+    bad = 0
+    print('derivs_inner =', vec(res['ri']))
+    print('derivs_outer =', vec(res['ro']))
+    for name, lhs, rhs, scale in preds:
+        ok = holds(lhs, rhs, scale)
+        bad += not ok
+        print('%-16s lhs=%.17g rhs=%.17g |lhs-rhs|/sum|terms|=%.3g %s' % (name, lhs, rhs, abs(lhs - rhs) / scale if scale else 0., 'ok' if ok else 'FAILS'))
+    print('REPLAY property=C06 %s' % ('violation reproduced' if bad else 'all identities hold'))
+    return 1 if bad else 0
